@@ -261,6 +261,12 @@ def run(c, facts, tier):
             chain, cargs = rx.ctor_chain(rx.closure_body(f))
             okp = cargs is not None and [rx.var_name(x) for x in cargs] == ps
             c.ob("C05.vocab", a.site, "%s argument order" % a.lit, okp, "closure parameters %s are passed to %s as %s" % (ps, chain, [src(x) for x in (cargs or [])]))
+    # the node built by the table reaches the caller through the precedence pass, which copies tokens and sub-trees
+    # (`init.clone()`, `.to_owned()`): the copy is the node only if Clone is the derived, field-by-field one
+    from .. import valuetraits as _vt
+
+    cp_ = _vt.clone_problems(facts)
+    c.ob("C05.vocab", "ast", "the node built for a keyword is copied faithfully on its way out (derived Clone on token and tree types)", not cp_, "not derived / hand-written: %s" % cp_ if cp_ else "Clone is derived on %d token and tree types" % len(_vt.AST_TYPES), witness="-fprint0 out" if cp_ else None, nontrivial=False)
 
     # ------------------------------------------------------------ C05.shadow
     npairs = 0
